@@ -73,16 +73,18 @@ UnregisterClient(c) ==
   /\ last' = [op |-> "unreg", c |-> c] /\ dlv' = <<>>
   /\ UNCHANGED <<accept, devs>>
 
+(* the two loops of process_message as functions of the registry: who is handed a message of kind k, device attribute n,
+   sent by s, under policy table pol *)
+ToDevOf(ds, s, k, n) == IF FromClient(k) THEN SelectSeq(ds, LAMBDA d : d # s /\ Accepts(d, n)) ELSE <<>>
+ToCliOf(cs, pol, s, k, n) ==
+  LET polOf(c) == IF c \in DOMAIN pol /\ n \in Names THEN pol[c][n] ELSE "unset"
+  IN IF FromDevice(k) THEN SelectSeq(cs, LAMBDA c : c # s /\ Deliver(polOf(c), k)) ELSE <<>>
 (* process_message(message, sender): kind k, device attribute n, enableBLOB value v *)
 ProcessMessage(s, k, n, v) ==
   LET pol1 == IF k = "enableBLOB" /\ s \in DOMAIN policy /\ n \in Names
               THEN [policy EXCEPT ![s][n] = v] ELSE policy
-      toDev == IF FromClient(k)
-               THEN SelectSeq(devs, LAMBDA d : d # s /\ Accepts(d, n)) ELSE <<>>
-      polOf(c) == IF c \in DOMAIN pol1 /\ n \in Names THEN pol1[c][n] ELSE "unset"
-      toCli == IF FromDevice(k)
-               THEN SelectSeq(clients, LAMBDA c : c # s /\ Deliver(polOf(c), k))
-               ELSE <<>>
+      toDev == ToDevOf(devs, s, k, n)
+      toCli == ToCliOf(clients, pol1, s, k, n)
   IN /\ policy' = pol1
      /\ dlv' = [i \in 1..Len(toDev) |-> <<"dev", toDev[i]>>] \o [i \in 1..Len(toCli) |-> <<"cli", toCli[i]>>]
      /\ last' = [op |-> "msg", s |-> s, k |-> k, n |-> n, v |-> v]
